@@ -494,7 +494,9 @@ Spec == Init /\ [][Next]_vars
 Quiescent == /\ mainBusy = 0
              /\ \A i \in 1..Len(tasks) : tasks[i].pc = Done
 HadReload == \E i \in 1..Len(tasks) : tasks[i].kind \in {"reload", "reindex"} /\ tasks[i].pc = Done /\ ~tasks[i].cancelled
-OnlyDocMsgs == \A i \in 1..Len(script) : script[i].kind \in {"open", "change", "close"}
+\* watched-file CHANGE events are not document notifications, but the handler skips open documents, so the
+\* last document notification must still win when they are interleaved
+OnlyDocMsgs == \A i \in 1..Len(script) : script[i].kind \in {"open", "change", "close", "watch"}
 
 \* C27: message order decides (scripts of didOpen/didChange/didClose only)
 C27 == (Quiescent /\ OnlyDocMsgs /\ nDisk = 0) =>
